@@ -127,6 +127,9 @@ def gen_case(rng, i):
         for k in (['actual_text', 'expected_text'] if side == 'both' else [side]):
             case[k] = deg
         case['shape'] = 'degenerate-' + side
+    if entry in ('string', 'file') and rng.random() < 0.12:
+        case['names'] = rng.choice([['act.txt', 'actual-raw-ref.txt'], ['actual-out.txt', 'expected-out.txt'], ['act.txt', 'expected-raw-ref.txt'],
+                                    ['actual-raw-out.txt', 'ref.txt'], ['act.txt', 'actual-ref.txt']])
     if entry == 'files':
         good = T.to_text(rng, ref)
         if rng.random() < 0.5:
@@ -210,7 +213,12 @@ def run_case(ctx, case):
         call = lambda: r.assertBinaryFileCorrect(ap, ep)
         inputs = [ap, ep]
     else:
-        ap, ep = os.path.join(d, 'act.txt'), os.path.join(d, 'ref.txt')
+        for fn in os.listdir(d):
+            if os.path.isfile(os.path.join(d, fn)):
+                os.unlink(os.path.join(d, fn))
+        # (file names that look like tdda's own temporaries: a reference kept under the name of an old "actual" file)
+        an, en = case.get('names') or ('act.txt', 'ref.txt')
+        ap, ep = os.path.join(d, an), os.path.join(d, en)
         write(ep, case['expected_text'])
         write(ap, case['actual_text'])
         inputs = [ap, ep]
